@@ -113,10 +113,10 @@ PLAN = {
             'random': suite(['fub', 'fu', 'mb', 'mu', 'ja', 'bu'], 250, 2500, 20, 200, profiles=('stale',))},
     'C06': {'mc': mcs('fub', 'fob', 'mb', 'bo', 'ja', 'tja'),
             'gen': gens('fub', 'fob', 'mb', 'bo', 'ja', 'tja'),
-            'random': suite(ALL_KINDS, 200, 2000, 10, 100)},
+            'random': suite(ALL_KINDS, 200, 2000, 10, 100) + [rnd(k, 'small', 'panic', 80, 800) for k in ALL_KINDS]},
     'C07': {'mc': mcs('ja', 'tja'),
             'gen': gens('ja', 'tja'),
-            'random': suite(JOIN_KINDS, 600, 6000, 60, 600)},
+            'random': suite(JOIN_KINDS, 600, 6000, 60, 600) + [rnd(k, 'small', 'panic', 300, 3000) for k in JOIN_KINDS]},
     'C08': {'mc': mcs('fub', 'fu', 'mu'),
             'gen': gens('fub', 'fu', 'mu', 'bu'),
             'random': suite(COLL_KINDS + MERGE_KINDS, 250, 2500, 30, 300, profiles=('oscillate',)) + suite(['bu', 'bo', 'ja'], 100, 1000, 10, 100)},
@@ -125,7 +125,7 @@ PLAN = {
             'random': suite(ADAPT_KINDS, 400, 4000, 40, 400)},
     'C10': {'mc': mcs('bu', 'bo', 'tbu', 'tbo', 'fe'),
             'gen': gens('bu', 'bo', 'tbu', 'tbo', 'fe'),
-            'random': suite(ADAPT_KINDS, 400, 4000, 40, 400)},
+            'random': suite(ADAPT_KINDS, 400, 4000, 40, 400) + [rnd('fe', 'small', 'limit0', 6, 30)]},
     'C11': {'mc': mcs('mb', 'mu'),
             'gen': gens('mb', 'mu'),
             'random': suite(MERGE_KINDS, 500, 5000, 60, 600, profiles=('budget',))},
@@ -140,7 +140,8 @@ PLAN = {
                       + [rnd(k, 'small', 'churn', 30, 300) for k in ['fu', 'fo']]},
     'C14': {'mc': mcs('fub', 'fub_b1', 'fu', 'mb', 'bu'),
             'gen': [dict(GEN[n], tails=['quiet']) for n in ('fub', 'fu', 'mb', 'bu')],
-            'random': suite(COLL_KINDS + MERGE_KINDS + ['bu', 'fe'], 200, 2000, 15, 150, profiles=('stale',))},
+            'random': suite(COLL_KINDS + MERGE_KINDS + ['bu', 'fe'], 200, 2000, 15, 150, profiles=('stale',))
+                      + [rnd('fub', 'real', 'stale_big', 4, 20), rnd('fu', 'real', 'stale_big', 2, 10)]},
     'C15': {'mc': mcs('fub', 'fub_init', 'fob', 'fo', 'fu', 'mb'),
             'gen': gens('fub', 'fub_init', 'fob', 'fu'),
             'random': suite(COLL_KINDS + ['mb', 'mu'], 400, 4000, 40, 400)},
